@@ -179,7 +179,11 @@ theorem updateData_safe_ext (c : Cfg) (sh : Shape) (h : H) (remote persist : Boo
   have h1 := ext_allocValue h nw
   by_cases hf : fastPath c (h.allocValue nw).1 remote persist fp fd = true
   · simp only [hf, if_true]
-    exact ext_setStore h1 _ (by rw [allocValue_snd]; exact Nat.le_refl _)
+    split
+    · exact ext_setStore h1 _ (by rw [allocValue_snd]; exact Nat.le_refl _)
+    · refine ext_setStore (h1.trans (ext_allocStruct _ _)) _ ?_
+      simp only [H.allocStruct, allocValue_slen]
+      omega
   · simp only [hf, Bool.false_eq_true, if_false]
     rcases hs with hs | ⟨hp, hd, hm⟩
     · exact absurd hs hf
@@ -342,7 +346,10 @@ theorem wf_updateData {h : H} (hw : h.WF) (c : Cfg) (sh : Shape) (remote persist
   unfold updateData
   dsimp only
   split
-  · exact wf_setStore (wf_allocValue hw nw) _ (by rw [allocValue_snd, allocValue_slen]; exact Nat.lt_succ_self _)
+  · split
+    · exact wf_setStore (wf_allocValue hw nw) _ (by rw [allocValue_snd, allocValue_slen]; exact Nat.lt_succ_self _)
+    · exact wf_setStore (wf_allocStruct (wf_allocValue hw nw) (validSlice_field (wf_allocValue hw nw) _)) _
+        (by simp [H.allocStruct])
   · exact wf_engine (wf_allocValue hw nw) _ _ _ _ _ _ _ _
 
 /-! ### a merge-path update that does not persist, or fails, is a no-op on the stored data -/
@@ -655,5 +662,256 @@ theorem dataCopy_snapshot {h : H} (hw : h.WF) (s : Nat) (hst : h.store = some s)
     rfl
   · simp only [H.allocStruct, hst, ne_eq, Option.some.injEq]
     omega
+
+/-! ### the member whose fast path stores a copy: the store never points to a struct that was handed out -/
+
+/-- the structs an `UpdateData` call hands to / leaves with the caller: the value handed in, the returned data -/
+def UpdRes.handles : UpdRes → List Nat
+  | .panic => []
+  | .done _ i o => i :: o.toList
+
+theorem applyRes_store (h1 : H) (s : Nat) (persist : Bool) (inp : Nat) (r : Res) :
+    (applyRes h1 s persist inp r).1.store = h1.store := by
+  unfold applyRes
+  dsimp only
+  have h2 : (h1.writeBack (h1.field s) r.inplace).store = h1.store := by
+    cases h1.field s with
+    | none => rfl
+    | some an => rfl
+  split <;> split <;> split <;> simp [H.allocStruct, allocList_store, h2]
+
+theorem writeBack_slen (h : H) (cur : Slice) (ip : List Item) : (h.writeBack cur ip).structs.length = h.structs.length := by
+  cases cur with
+  | none => rfl
+  | some an => rfl
+
+/-- the handles of an engine result: the input, and on success a brand-new struct -/
+theorem applyRes_handles (h1 : H) (s : Nat) (persist : Bool) (inp : Nat) (r : Res) :
+    ∀ x ∈ (applyRes h1 s persist inp r).2.handles, x = inp ∨ x = h1.structs.length := by
+  unfold applyRes
+  dsimp only
+  have hl : ∀ h3 : H, h3.structs.length = h1.structs.length → ∀ v : Slice,
+      (if (r.fresh && r.ok && persist) = true then ({ h3 with structs := h3.structs.set s v } : H) else h3).structs.length
+        = h1.structs.length := by
+    intro h3 h3l v
+    split <;> simp [h3l]
+  have h3l : (if r.fresh = true then ((h1.writeBack (h1.field s) r.inplace).allocList r.out).1
+      else h1.writeBack (h1.field s) r.inplace).structs.length = h1.structs.length := by
+    split
+    · rw [allocList_structs, writeBack_slen]
+    · rw [writeBack_slen]
+  intro x hx
+  split at hx
+  · simp only [UpdRes.handles, Option.toList, List.mem_cons, List.not_mem_nil, or_false, H.allocStruct] at hx
+    rcases hx with rfl | rfl
+    · exact Or.inl rfl
+    · exact Or.inr (hl _ h3l _)
+  · simp only [UpdRes.handles, Option.toList, List.mem_cons, List.not_mem_nil, or_false] at hx
+    exact Or.inl hx
+
+theorem applyRes_slen (h1 : H) (s : Nat) (persist : Bool) (inp : Nat) (r : Res) :
+    (applyRes h1 s persist inp r).1.structs.length = h1.structs.length + (if r.ok then 1 else 0) := by
+  unfold applyRes
+  dsimp only
+  have h3l : (if r.fresh = true then ((h1.writeBack (h1.field s) r.inplace).allocList r.out).1
+      else h1.writeBack (h1.field s) r.inplace).structs.length = h1.structs.length := by
+    split
+    · rw [allocList_structs, writeBack_slen]
+    · rw [writeBack_slen]
+  generalize (if r.fresh = true then ((h1.writeBack (h1.field s) r.inplace).allocList r.out).1
+      else h1.writeBack (h1.field s) r.inplace) = h3 at h3l
+  generalize (if r.fresh = true then ((h1.writeBack (h1.field s) r.inplace).allocList r.out).2 else h1.field s) = v
+  have h4l : (if (r.fresh && r.ok && persist) = true then ({ h3 with structs := h3.structs.set s v } : H) else h3).structs.length
+      = h1.structs.length := by
+    split <;> simp [h3l]
+  cases hok : r.ok with
+  | false =>
+    simp only [hok, Bool.and_false, Bool.false_and, Bool.false_eq_true, if_false] at h4l ⊢
+    simpa using h4l
+  | true =>
+    simp only [if_true, H.allocStruct, List.length_append, List.length_cons, List.length_nil]
+    rw [hok] at h4l
+    omega
+
+theorem applyRes_handles_lt (h1 : H) (s : Nat) (persist : Bool) (inp : Nat) (r : Res) (hi : inp < h1.structs.length) :
+    ∀ x ∈ (applyRes h1 s persist inp r).2.handles, x < (applyRes h1 s persist inp r).1.structs.length := by
+  intro x hx
+  rw [applyRes_slen]
+  have hcases := applyRes_handles h1 s persist inp r x hx
+  unfold applyRes at hx
+  dsimp only at hx
+  cases hok : r.ok with
+  | true => rcases hcases with rfl | rfl <;> simp <;> omega
+  | false =>
+    simp only [hok, Bool.false_eq_true, if_false, UpdRes.handles, Option.toList, List.mem_cons, List.not_mem_nil, or_false] at hx
+    subst hx; simp; omega
+
+/-- every struct an `UpdateData` call hands out exists afterwards, and no struct disappears -/
+theorem updateData_handles_lt (c : Cfg) (sh : Shape) (h : H) (remote persist : Bool) (nw : List Item) (fp fd : FArg) :
+    h.structs.length ≤ (updateData c sh h remote persist nw fp fd).1.structs.length ∧
+    ∀ x ∈ (updateData c sh h remote persist nw fp fd).2.handles, x < (updateData c sh h remote persist nw fp fd).1.structs.length := by
+  have hi := allocValue_snd h nw
+  have hl := allocValue_slen h nw
+  unfold updateData
+  dsimp only
+  split
+  · split
+    · refine ⟨by simp only []; omega, fun x hx => ?_⟩
+      simp only [UpdRes.handles, Option.toList, List.mem_cons, List.not_mem_nil, or_false, or_self] at hx
+      simp only []; omega
+    · refine ⟨by simp only [H.allocStruct, List.length_append, List.length_cons, List.length_nil]; omega, fun x hx => ?_⟩
+      simp only [UpdRes.handles, Option.toList, List.mem_cons, List.not_mem_nil, or_false, or_self] at hx
+      simp only [H.allocStruct, List.length_append, List.length_cons, List.length_nil]; omega
+  · unfold engine
+    dsimp only
+    have he := (ext_ensureStore (h.allocValue nw).1).slen
+    split
+    · exact ⟨by simp only []; omega, fun x hx => by simp [UpdRes.handles] at hx⟩
+    · rename_i r _
+      refine ⟨by rw [applyRes_slen]; omega, ?_⟩
+      exact applyRes_handles_lt _ _ persist _ r (by omega)
+
+/-- where the store points after an `UpdateData` call of the member whose fast path stores a copy, and which
+    structs the call handed out: the store is the old one or a brand-new private struct; every handle is new and is
+    not the stored struct -/
+theorem updateData_private (c : Cfg) (hc : c.fastpathAdopts = false) (sh : Shape) {h : H} (hw : h.WF)
+    (remote persist : Bool) (nw : List Item) (fp fd : FArg) :
+    (∀ x ∈ (updateData c sh h remote persist nw fp fd).2.handles, h.structs.length ≤ x) ∧
+    (∀ s, (updateData c sh h remote persist nw fp fd).1.store = some s →
+      (h.store = some s ∨ h.structs.length ≤ s) ∧ s ∉ (updateData c sh h remote persist nw fp fd).2.handles) := by
+  have hi := allocValue_snd h nw
+  have hl := allocValue_slen h nw
+  have hst := allocValue_store h nw
+  unfold updateData
+  dsimp only
+  split
+  · -- fast path: the store points to a copy made for it
+    simp only [hc, Bool.false_eq_true, if_false, UpdRes.handles, Option.toList, H.allocStruct, hi]
+    refine ⟨fun x hx => ?_, fun s hs => ?_⟩
+    · simp only [List.mem_cons, List.not_mem_nil, or_false, or_self] at hx
+      omega
+    · simp only [Option.some.injEq] at hs
+      subst hs
+      rw [hl]
+      exact ⟨Or.inr (by omega), by simp⟩
+  · -- engine path
+    unfold engine
+    dsimp only
+    have hen : ∀ s, (h.allocValue nw).1.ensureStore.1.store = some s →
+        s = (h.allocValue nw).1.ensureStore.2 ∧
+        ((h.store = some s ∧ s < h.structs.length ∧ (h.allocValue nw).1.ensureStore.1.structs.length = h.structs.length + 1) ∨
+         (s = h.structs.length + 1 ∧ (h.allocValue nw).1.ensureStore.1.structs.length = h.structs.length + 2)) := by
+      intro s hs
+      unfold H.ensureStore at hs ⊢
+      cases hs0 : (h.allocValue nw).1.store with
+      | some s0 =>
+        simp only [hs0] at hs ⊢
+        cases hs
+        rw [hst] at hs0
+        exact ⟨rfl, Or.inl ⟨hs0, hw.2 _ hs0, hl⟩⟩
+      | none =>
+        simp only [hs0] at hs ⊢
+        simp only [Option.some.injEq] at hs
+        subst hs
+        exact ⟨rfl, Or.inr ⟨hl, by simp [H.allocStruct, hl]⟩⟩
+    split
+    · -- panic: nothing handed out
+      refine ⟨fun x hx => by simp [UpdRes.handles] at hx, fun s hs => ⟨?_, by simp [UpdRes.handles]⟩⟩
+      rcases (hen s hs).2 with ⟨h1, _, _⟩ | ⟨h1, _⟩
+      · exact Or.inl h1
+      · exact Or.inr (by omega)
+    · rename_i r _
+      have hh := applyRes_handles (h.allocValue nw).1.ensureStore.1 (h.allocValue nw).1.ensureStore.2 persist
+        (h.allocValue nw).2 r
+      refine ⟨fun x hx => ?_, fun s hs => ?_⟩
+      · rcases hh x hx with rfl | rfl
+        · rw [hi]; exact Nat.le_refl _
+        · have := (ext_ensureStore (h.allocValue nw).1).slen
+          omega
+      · rw [applyRes_store] at hs
+        obtain ⟨_, hcase⟩ := hen s hs
+        refine ⟨?_, fun hmem => ?_⟩
+        · rcases hcase with ⟨h1, _, _⟩ | ⟨h1, _⟩
+          · exact Or.inl h1
+          · exact Or.inr (by omega)
+        · rcases hh s hmem with he | he
+          · rw [hi] at he
+            rcases hcase with ⟨_, h2, _⟩ | ⟨h2, _⟩ <;> omega
+          · rcases hcase with ⟨_, h2, h3⟩ | ⟨h2, h3⟩ <;> omega
+
+/-- histories that record every struct handed out -/
+def stepH (c : Cfg) (sh : Shape) (st : H × List Nat) : Op → H × List Nat
+  | .copy => ((dataCopy st.1).1, st.2 ++ (dataCopy st.1).2.toList)
+  | .upd remote persist nw fp fd =>
+    ((updateData c sh st.1 remote persist nw fp fd).1, st.2 ++ (updateData c sh st.1 remote persist nw fp fd).2.handles)
+
+def runH (c : Cfg) (sh : Shape) (st : H × List Nat) (ops : List Op) : H × List Nat := ops.foldl (stepH c sh) st
+
+theorem runH_fst (c : Cfg) (sh : Shape) : ∀ (ops : List Op) (st : H × List Nat), (runH c sh st ops).1 = run c sh st.1 ops
+  | [], _ => rfl
+  | op :: ops, st => by
+    show (runH c sh (stepH c sh st op) ops).1 = run c sh (stepOp c sh st.1 op) ops
+    rw [runH_fst c sh ops]
+    cases op <;> rfl
+
+/-- invariant: well-formed, every handed-out struct exists, none of them is the stored struct -/
+def Private (st : H × List Nat) : Prop :=
+  st.1.WF ∧ (∀ x ∈ st.2, x < st.1.structs.length) ∧ (∀ s, st.1.store = some s → s ∉ st.2)
+
+theorem private_step (c : Cfg) (hc : c.fastpathAdopts = false) (sh : Shape) (st : H × List Nat) (hp : Private st)
+    (op : Op) : Private (stepH c sh st op) := by
+  obtain ⟨hw, hlt, hst⟩ := hp
+  cases op with
+  | copy =>
+    refine ⟨wf_dataCopy hw, ?_, ?_⟩
+    · intro x hx
+      simp only [stepH, List.mem_append] at hx ⊢
+      have hsl := (ext_dataCopy st.1).slen
+      rcases hx with hx | hx
+      · exact Nat.lt_of_lt_of_le (hlt x hx) hsl
+      · unfold dataCopy at hx ⊢
+        cases hs0 : st.1.store with
+        | none => simp [hs0] at hx
+        | some s0 =>
+          simp only [hs0, Option.toList, List.mem_cons, List.not_mem_nil, or_false, H.allocStruct] at hx ⊢
+          subst hx; simp
+    · intro s hs
+      simp only [stepH, List.mem_append, not_or] at hs ⊢
+      unfold dataCopy at hs ⊢
+      cases hs0 : st.1.store with
+      | none => simp [hs0] at hs
+      | some s0 =>
+        simp only [hs0, H.allocStruct] at hs ⊢
+        cases hs
+        refine ⟨hst s hs0, ?_⟩
+        simp only [Option.toList, List.mem_cons, List.not_mem_nil, or_false]
+        exact Nat.ne_of_lt (hw.2 s hs0)
+  | upd remote persist nw fp fd =>
+    obtain ⟨hnew, hstore⟩ := updateData_private c hc sh hw remote persist nw fp fd
+    have hwf := wf_updateData hw c sh remote persist nw fp fd
+    refine ⟨hwf, ?_, ?_⟩
+    · intro x hx
+      simp only [stepH, List.mem_append] at hx ⊢
+      obtain ⟨hmono, hnewlt⟩ := updateData_handles_lt c sh st.1 remote persist nw fp fd
+      rcases hx with hx | hx
+      · exact Nat.lt_of_lt_of_le (hlt x hx) hmono
+      · exact hnewlt x hx
+    · intro s hs
+      simp only [stepH, List.mem_append, not_or] at hs ⊢
+      obtain ⟨hcase, hnot⟩ := hstore s hs
+      refine ⟨?_, hnot⟩
+      rcases hcase with h1 | h1
+      · exact hst s h1
+      · intro hmem
+        have := hlt s hmem
+        omega
+
+theorem private_run (c : Cfg) (hc : c.fastpathAdopts = false) (sh : Shape) :
+    ∀ (ops : List Op) (st : H × List Nat), Private st → Private (runH c sh st ops)
+  | [], _, hp => hp
+  | op :: ops, st, hp => private_run c hc sh ops _ (private_step c hc sh st hp op)
+
+theorem private_empty : Private (({} : H), []) :=
+  ⟨wf_empty, fun x hx => (by cases hx), fun s hs => (by cases hs)⟩
 
 end Spine.Heap
